@@ -36,11 +36,19 @@ func main() {
 		// direct state probes of the key derivation: a sequence of derivations in one process (different
 		// subscribers one after the other), for algorithm identifiers that cannot complete a registration too
 		probes, _ := s.Rig["probes"].([]interface{})
+		var prev *tglib.RanUeContext
 		for i, pv := range probes {
 			p := pv.(map[string]interface{})
 			str := func(k string) string { v, _ := p[k].(string); return v }
-			ue := tglib.NewRanUeContext("imsi-"+str("imsi"), 1, uint8(num(p, "nea", 0)), uint8(num(p, "nia", 2)))
-			ue.AuthenticationSubs = tglib.GetAuthSubscription(str("k"), str("opc"), str("op"))
+			var ue *tglib.RanUeContext
+			if same, _ := p["same_ue"].(bool); same && prev != nil {
+				// re-authentication: the network runs AKA again for the UE it authenticated before
+				ue = prev
+			} else {
+				ue = tglib.NewRanUeContext("imsi-"+str("imsi"), 1, uint8(num(p, "nea", 0)), uint8(num(p, "nia", 2)))
+				ue.AuthenticationSubs = tglib.GetAuthSubscription(str("k"), str("opc"), str("op"))
+			}
+			prev = ue
 			rnd, _ := hex.DecodeString(str("rand"))
 			autnB, _ := hex.DecodeString(str("autn"))
 			var autn [16]byte
